@@ -11,6 +11,7 @@ import (
 	_ "verif/c10"
 	_ "verif/c11"
 	_ "verif/c12"
+	_ "verif/c13"
 	_ "verif/c14"
 	_ "verif/c15"
 	_ "verif/c16"
